@@ -62,7 +62,98 @@ fn wg(ops: &[Value]) -> Value {
     json!({"polls": out})
 }
 
+/// the REAL `howl` in a child process (the Ctrl-C handler can be installed once per process): k keep-alive sessions (one of them may have
+/// made a handler panic), then a real SIGINT to the child, then the sessions are closed in the given order.
+/// child side: `verif_harness C18howl '<scenario json>'`
+pub fn howl_child(scenario: &str) -> ! {
+    use std::io::{Read, Write};
+    use std::sync::atomic::AtomicBool;
+    use std::time::Duration;
+    use ohkami::prelude::*;
+    let sc: Value = serde_json::from_str(scenario).expect("harness: scenario");
+    let k = sc["sessions"].as_u64().unwrap_or(0) as usize;
+    let order: Vec<usize> = sc["order"].as_array().map(|a| a.iter().map(|x| x.as_u64().unwrap() as usize).collect()).unwrap_or_else(|| (0..k).collect());
+    let boom = sc["panic"].as_u64().map(|x| x as usize);
+    let by_signal = sc["signal"].as_bool().unwrap_or(true);
+    async fn ok() -> &'static str { "ok" }
+    async fn boomh() -> &'static str { panic!("boom") }
+    static RETURNED: AtomicBool = AtomicBool::new(false);
+    let port = { let l = std::net::TcpListener::bind("127.0.0.1:0").unwrap(); l.local_addr().unwrap().port() };
+    let client = std::thread::spawn(move || {
+        let connect = || { for _ in 0..200 { if let Ok(s) = std::net::TcpStream::connect(("127.0.0.1", port)) { return Some(s) } std::thread::sleep(Duration::from_millis(10)); } None };
+        let ask = |s: &mut std::net::TcpStream, path: &str| -> bool {
+            s.set_read_timeout(Some(Duration::from_millis(300))).ok();
+            if s.write_all(format!("GET {path} HTTP/1.1\r\n\r\n").as_bytes()).is_err() { return false }
+            let mut buf = [0u8; 512];
+            matches!(s.read(&mut buf), Ok(n) if n > 0)
+        };
+        let mut sessions: Vec<Option<std::net::TcpStream>> = vec![];
+        let mut served = vec![];
+        for i in 0..k {
+            let Some(mut s) = connect() else { break };
+            served.push(ask(&mut s, if boom == Some(i) { "/boom" } else { "/" }));
+            sessions.push(Some(s));
+        }
+        if k == 0 { let _ = connect().map(drop); std::thread::sleep(Duration::from_millis(50)); }       // make sure the accept loop is running
+        // the interrupt
+        if by_signal { std::process::Command::new("kill").arg("-INT").arg(std::process::id().to_string()).status().ok(); }
+        else { CtrlC::__verif_on_interrupt(); }
+        std::thread::sleep(Duration::from_millis(150));
+        // a session whose handler panicked is over (its task unwound, the server side of the connection is gone): it is not in flight
+        let mut live: Vec<usize> = (0..sessions.len()).filter(|i| boom != Some(*i)).collect();
+        let returned_with_sessions_open = !live.is_empty() && RETURNED.load(Ordering::SeqCst);
+        // a new connection after the interrupt must not be served
+        let served_after_interrupt = match std::net::TcpStream::connect(("127.0.0.1", port)) { Ok(mut s) => ask(&mut s, "/"), Err(_) => false };
+        let mut returned_early = returned_with_sessions_open;
+        for (n, i) in order.iter().enumerate() {
+            if let Some(s) = sessions.get_mut(*i).and_then(Option::take) { drop(s) }
+            live.retain(|x| x != i);
+            std::thread::sleep(Duration::from_millis(60));
+            let _ = n;
+            if !live.is_empty() && RETURNED.load(Ordering::SeqCst) { returned_early = true }
+        }
+        let mut waited = 0;
+        while !RETURNED.load(Ordering::SeqCst) && waited < 3000 { std::thread::sleep(Duration::from_millis(20)); waited += 20 }
+        println!("{}", json!({"served": served, "returned_early": returned_early, "served_after_interrupt": served_after_interrupt, "returned_after_all": RETURNED.load(Ordering::SeqCst)}));
+        std::process::exit(0);
+    });
+    let rt = tokio::runtime::Builder::new_current_thread().enable_all().build().unwrap();
+    let local = tokio::task::LocalSet::new();
+    local.block_on(&rt, async move {
+        Ohkami::new(("/".GET(ok), "/boom".GET(boomh))).howl(("127.0.0.1", port)).await;
+        RETURNED.store(true, Ordering::SeqCst);
+        tokio::time::sleep(Duration::from_secs(10)).await;
+    });
+    let _ = client.join();
+    std::process::exit(0)
+}
+
+fn howl(sc: &Value) -> Value {
+    // the child picks a free port by binding and releasing it: somebody else may grab it in between; try again when the child gave no answer
+    for _ in 0..3 { let r = howl_once(sc); if r.get("error").is_none() { return r } }
+    howl_once(sc)
+}
+
+fn howl_once(sc: &Value) -> Value {
+    use std::io::Read;
+    let mut child = match std::process::Command::new(std::env::current_exe().unwrap()).arg("C18howl").arg(sc.to_string())
+        .stdout(std::process::Stdio::piped()).stderr(std::process::Stdio::null()).spawn() { Ok(c) => c, Err(e) => return json!({"error": e.to_string()}) };
+    let t0 = std::time::Instant::now();
+    loop {
+        match child.try_wait() {
+            Ok(Some(_)) => break,
+            Ok(None) if t0.elapsed().as_secs() > 12 => { let _ = child.kill(); let _ = child.wait(); return json!({"hang": true}) }
+            Ok(None) => std::thread::sleep(std::time::Duration::from_millis(20)),
+            Err(e) => return json!({"error": e.to_string()}),
+        }
+    }
+    let mut out = String::new();
+    child.stdout.take().unwrap().read_to_string(&mut out).ok();
+    serde_json::from_str(out.lines().last().unwrap_or("")).unwrap_or(json!({"error": "no answer from the howl child", "stdout": out}))
+}
+
 pub fn run_case(c: &Value) -> Value {
+    if let Some(sc) = c.get("howl") { return howl(sc) }
     if let Some(w) = c.get("wg").and_then(Value::as_array) { return wg(w) }
     let wakers: Vec<u64> = c.get("wakers").and_then(Value::as_array).map(|a| a.iter().map(|x| x.as_u64().unwrap_or(0)).collect()).unwrap_or_default();
     polls(c["polls"].as_array().unwrap(), &wakers)
